@@ -26,6 +26,7 @@ import PGProofs.DriverPath
 import PGProofs.MutConfig
 import PGProofs.MutConfigNonneg
 import PGProofs.MutConfigBridge
+import PGProofs.MutConfigBridge2
 
 set_option linter.all false
 set_option pp.fieldNotation.generalized false
@@ -126,6 +127,18 @@ theorem generator_signs : ∀ (m : Model), Model.Valid m → ∀ (ep : EpochP), 
 /-- every non-absorbing block-counting state carries total branch-length reward >= 2 -/
 theorem transient_reward_pos : ∀ {D n : ℕ} (m : Model) (ep : EpochP), 0 < D → 2 ≤ n → ∀ (fuel : ℕ) (g : Graph), bfs (transit m ep) (initialState 1 D n n) fuel = some g → ∀ s ∈ g.visited, State.isAbsorbing s = false → 0 < Reward.eval n s Reward.totalBranchLength := @PG.transient_total_reward_pos
 
+/-- TOTAL on the code model: mutConfigProb RETURNS a value (the certified Gauss-Jordan inverse cannot take its singular branch) and it lies in [0, 1] - valid model and epoch, n >= 2, theta > 0, nothing else -/
+theorem code_prob_total : ∀ {D n : ℕ} (m : Model), Model.Valid m → ∀ (ep : EpochP), EpochP.Valid ep → 0 < D → 2 ≤ n → ∀ (fuel : ℕ) (g : Graph), bfs (transit m ep) (initialState 1 D n n) fuel = some g → ∀ (nVec : List ℕ) (nLoci nUnl : ℕ) (θ : ℚ), 0 < θ → ∀ (config : List ℕ), ∃ p, mutConfigProb (mutcfgInputs g n nVec nLoci nUnl).1 (mutcfgInputs g n nVec nLoci nUnl).2.1 (mutcfgInputs g n nVec nLoci nUnl).2.2 θ config = some p ∧ 0 ≤ p ∧ (List.length config = n - 1 → p ≤ 1) := @PG.C16_code_prob_total
+
+/-- the same for the folded path (rewards foldedSFS_i, n/2 bins) -/
+theorem code_prob_folded : ∀ {D n : ℕ} (m : Model), Model.Valid m → ∀ (ep : EpochP), EpochP.Valid ep → 0 < D → 2 ≤ n → ∀ (fuel : ℕ) (g : Graph), bfs (transit m ep) (initialState 1 D n n) fuel = some g → ∀ (nVec : List ℕ) (nLoci nUnl : ℕ) (θ : ℚ), 0 < θ → ∀ (config : List ℕ), ∃ p, mutConfigProb (mutcfgInputsFolded g n nVec nLoci nUnl).1 (mutcfgInputsFolded g n nVec nLoci nUnl).2.1 (mutcfgInputsFolded g n nVec nLoci nUnl).2.2 θ config = some p ∧ 0 ≤ p ∧ (List.length config = n / 2 → p ≤ 1) := @PG.C16_code_prob_total_folded
+
+/-- the executable Gauss-Jordan routine (pivot search, swap, scale, eliminate; loop invariant Left = Right * A with injective left block) returns the two-sided inverse of every well-shaped matrix with non-zero determinant -/
+theorem gauss_jordan_succeeds : ∀ {k : ℕ} (a : RMat), WellShaped k a → Matrix.det (toMatrix k a) ≠ 0 → ∃ b, RMat.inv a = some b ∧ WellShaped k b ∧ toMatrix k b * toMatrix k a = 1 ∧ toMatrix k a * toMatrix k b = 1 := @PG.RMat.inv_spec_of_det_ne_zero
+
+/-- getP returns a value exactly when the matrix the code inverts is invertible -/
+theorem getP_defined_iff : ∀ (S : RMat) (R : List (Array ℚ)) (θ : ℚ), (∃ out, getP S R θ = some out) ↔ Matrix.det (mcCode θ (rFun (Array.size S) R) (toMatrix (Array.size S) S)) ≠ 0 := @PG.getP_isSome_iff
+
 end PG.C16
 
 #print axioms PG.C16.executable_getP
@@ -159,3 +172,7 @@ end PG.C16
 #print axioms PG.C16.code_total_mass
 #print axioms PG.C16.generator_signs
 #print axioms PG.C16.transient_reward_pos
+#print axioms PG.C16.code_prob_total
+#print axioms PG.C16.code_prob_folded
+#print axioms PG.C16.gauss_jordan_succeeds
+#print axioms PG.C16.getP_defined_iff
